@@ -224,6 +224,45 @@ pub fn check_case(case: &MapCase, st: &mut Stats) -> Check {
     Ok(())
 }
 
+/// descriptors crossing size thresholds: many parameters, deep arrays, long names, many repetitions of one type
+#[derive(Clone, Debug, Serialize, Deserialize)]
+pub struct BigDesc {
+    pub n_params: usize,
+    pub dims: u8,
+    pub name_len: usize,
+    pub ret_obj: bool,
+}
+
+pub fn check_big(b: &BigDesc, st: &mut Stats) -> Check {
+    let long_name = format!("x/{}", "n".repeat(b.name_len));
+    let mapping = format!("{FIXED_MAPPING}com.example.LongName -> x.{}:\n", "n".repeat(b.name_len));
+    let bytes = mapping.as_bytes();
+    let m = mapper(bytes, false)?;
+    let buf = write_cache(bytes)?;
+    let cache = parse_cache(&buf)?;
+    let rs: [&dyn Retracer; 2] = [&m, &cache];
+    let dotted_long = long_name.replace('/', ".");
+    let lookup = |c: &str| match c {
+        "a.a" => Some("com.example.A".to_string()),
+        "x.Long" => Some("org.Long2".to_string()),
+        "I" => Some("com.example.Iface".to_string()),
+        "é.ü" => Some("ü.Ö".to_string()),
+        "Lib" => Some("Lib2".to_string()),
+        c if c == dotted_long => Some("com.example.LongName".to_string()),
+        _ => None,
+    };
+    let pool = [Ty::Prim('I'), Ty::Obj("a/a".into()), Ty::Obj(long_name.clone()), Ty::Array(b.dims.max(1), Box::new(Ty::Prim('J'))), Ty::Array(b.dims.max(1), Box::new(Ty::Obj("a/a".into()))), Ty::Obj("zz/U".into()), Ty::Array(1, Box::new(Ty::Prim('I')))];
+    let params: Vec<Ty> = (0..b.n_params).map(|i| pool[(i * 5 + i / 7) % pool.len()].clone()).collect();
+    let ret = if b.ret_obj { Some(Ty::Array(b.dims.max(1), Box::new(Ty::Obj(long_name.clone())))) } else { None };
+    let d = Desc { params, ret };
+    st.class("big descriptor (many params / deep arrays / long names)");
+    check_desc(&rs, &lookup, &d, false, st).map_err(|mut f| {
+        f.msg = crate::engine::truncate(&f.msg, 1200);
+        f.detail = json!({"big": b});
+        f
+    })
+}
+
 #[derive(Clone, Debug, Serialize)]
 pub struct ExhaustiveChunk {
     pub ret: usize,
@@ -289,6 +328,18 @@ pub fn run(ctx: &Ctx) -> Report {
     let mut rep = Report::new(ID, "exploration", ctx);
     rep.rule = "Generated: descriptor ASTs (0..6 parameters; primitives, objects mapped / unmapped / adversarial names such as I, Lib, x/Long, L, IL, ZBCSIJFD, V, non-ASCII, a$b; arrays nested <= 3) against generated mappings; bounded-exhaustive: all descriptors with <= 3 parameters over a 6-type alphabet x 7 return types (1813) against a fixed mapping; per descriptor the precisely generated unterminated variants (';' of the last object parameter / of an object return removed), the three documented rejected shapes, and (for a subset) every single-character delete/insert/replace over an 11-character edit alphabet; arbitrary Unicode strings. Oracle: valid => parameters_types/return_type/format_signature equal the rendering computed from the descriptor AST with class names resolved through the reference model's class table; rejected shapes => None; every string: mapper == cache, no panic. evaluations = deobfuscate_signature calls/comparisons. Non-trivial = distinct valid descriptors with >=1 object or array type, plus distinct unterminated variants.".into();
     rep.run_stage("ast", || map_case(&cfg()), ctx.cases(10_000, 450_000), check_case);
+    let mut bigs = Vec::new();
+    for n_params in [15usize, 16, 17, 254, 255, 256, 1000] {
+        for dims in [1u8, 3, 254, 255] {
+            for name_len in [126usize, 127, 128, 255, 256, 65535, 65536] {
+                if (n_params >= 254 && name_len >= 65535) && ctx.tier == crate::engine::Tier::Quick {
+                    continue;
+                }
+                bigs.push(BigDesc { n_params, dims, name_len, ret_obj: (n_params + name_len) % 2 == 0 });
+            }
+        }
+    }
+    rep.run_enum("big", &bigs, check_big);
     let chunks: Vec<ExhaustiveChunk> = (0..7).map(|ret| ExhaustiveChunk { ret }).collect();
     rep.run_enum("exhaustive", &chunks, check_exhaustive);
     rep.stats.exhaustive.push("all descriptors with <=3 parameters over the 6-type alphabet x 7 return types".into());
@@ -299,6 +350,7 @@ pub fn replay(stage: &str, case: &Value) -> Check {
     let mut st = Stats::new();
     match stage {
         "ast" => check_case(&serde_json::from_value(case.clone()).map_err(|e| Fail::new("harness-replay", e.to_string()))?, &mut st),
+        "big" => check_big(&serde_json::from_value(case.clone()).map_err(|e| Fail::new("harness-replay", e.to_string()))?, &mut st),
         "exhaustive" => check_exhaustive(&ExhaustiveChunk { ret: case["ret"].as_u64().unwrap_or(0) as usize }, &mut st),
         _ => Err(Fail::new("harness-replay", format!("unknown stage {stage}"))),
     }
